@@ -29,6 +29,7 @@ def run(ctx, crate):
     rule_limiter_constants(ctx, crate)
     rule_force_is_constant(ctx, crate)
     rule_limiter_whole_duration(ctx, crate)
+    rule_time_source_is_clock(ctx, crate)
     # "skipped draws lose nothing": a member's rendering is refreshed before the MultiProgress limiter decides
     from .c02 import rule_multi_arm_unconditional
     rule_multi_arm_unconditional(ctx, crate)
@@ -343,3 +344,49 @@ def rule_force_is_constant(ctx, crate, rule="R-FORCE-IS-CONSTANT"):
                       "a non-constant force flag is the caller's own flag, forwarded",
                       "the force flag passed to %s is computed from the bar's state (%s): redraws bypass the limiter depending on position/length/…" % (K.meth(c.path), state_dep[:3]), cfg)
     ctx.floor(rule, n, 8, cfg, "calls of BarState::draw / MultiState::draw")
+
+
+INSTANT_TYS = ("std::time::Instant", "web_time::Instant")
+NOW = (r"std::time::Instant::now", r"web_time::Instant::now")
+
+
+def rule_time_source_is_clock(ctx, crate, rule="R-TIME-SOURCE-IS-CLOCK"):
+    """Both token buckets compare the `now` of a request with the reference time of the last admission; all requests share those
+    reference times. The law ("a request at least one interval after the last painted frame is painted") therefore needs every
+    request to be stamped with the *clock*: whenever library code passes an `Instant` down the draw path that it did not receive
+    as a parameter itself, the value comes straight from `Instant::now()` - evaluated anew in each iteration when the call sits
+    in a loop - and never from arithmetic on an earlier reading (`now += interval` drifts behind the clock by the time the loop
+    body takes, and every request stamped that way is refused for as long as the accumulated lag)."""
+    cfg = crate.config
+    n = 0
+    for b in K.lib_bodies(crate):
+        if b.file in K.TEST_DOUBLE_FILES:
+            continue
+        inst_params = {i for i in range(1, b.arg_count + 1) if b.locals[i]["ty"] in INSTANT_TYS}
+        for c in b.calls():
+            if not c.callee.get("local") or c.matches(*NOW):
+                continue
+            for ai, a in enumerate(c.args):
+                if not isinstance(a, dict) or a.get("k") not in ("move", "copy") or (a["place"].get("ty") or "") not in INSTANT_TYS:
+                    continue
+                sl = b.slice(a, at=c.bb)
+                nows = [k for k in sl.calls if k.matches(*NOW)]
+                if not nows and sl.params():
+                    continue            # forwarded from the caller (an Instant parameter, or the `now` field of a Drawable handed in)
+                n += 1
+                arith = [k for k in sl.calls if re.search(r"ops::(Add|AddAssign|Sub|SubAssign)::", k.generic or k.path) and
+                         any(t_ in " ".join(k.callee.get("targs") or []) for t_ in ("Instant",))]
+                problems = []
+                if not nows:
+                    problems.append("the value does not come from Instant::now()")
+                if arith:
+                    problems.append("it is computed by arithmetic on an earlier reading (%s, line %d)" % (K.meth(arith[0].generic or arith[0].path), arith[0].line))
+                if b.in_loop(c.bb) and nows:
+                    loop = {c.bb} | {y for y in b.reach_after(c.bb) if c.bb in b.reach_after(y)}
+                    if not any(k.bb in loop for k in nows):
+                        problems.append("the clock is read once outside the loop the call sits in")
+                ctx.check(not problems, rule, "now:%s->%s#%d" % (K.meth(b.name), K.meth(c.path), sum(1 for x in b.calls() if x.path == c.path and x.bb < c.bb)), b.name, c.loc(),
+                          "the Instant handed to %s is a fresh clock reading" % K.meth(c.path),
+                          "the time stamp handed to %s is not the clock: %s - requests stamped behind the limiter's reference time are refused although a full interval has passed" % (
+                              K.meth(c.path), "; ".join(problems)), cfg)
+    ctx.floor(rule, n, 30, cfg, "call sites that stamp a request with a time of their own")
